@@ -14,6 +14,13 @@ From NP Require Import Base Poly Harness Order Compare Query.
 Delimit Scope Z_scope with CZ.
 Local Notation P := ZParr.
 Local Notation D := dflt_opts.
+(* sortable_proxy: equal to the model, except that numpy's final (default-kind) argsort may order several elements
+   that were never ranked (raw proxy 0: leading exponent not a stored exponent) in any way *)
+Definition proxy_ok (raw model impl : seq nat) : bool :=
+  if (count (pred1 0%nat) raw <= 1)%nat then model == impl
+  else perm_eq impl (iota 0 (size raw)) &&
+       all (fun i => all (fun j => (nth 0%nat raw i < nth 0%nat raw j)%nat ==> (nth 0%nat impl i < nth 0%nat impl j)%nat)
+                         (iota 0 (size raw))) (iota 0 (size raw)).
 """
 TARGETS = ["Props/P_C19.vo"]
 
@@ -155,6 +162,9 @@ def run(report, tier, seed):
             except Exception as exc:  # noqa: BLE001
                 note("proxy-raise", f"sortable_proxy/argmax/amax on {desc} raised {type(exc).__name__}: {exc}", {"poly": lay})
                 continue
+            if size <= 40:
+                cc.add(f"proxy_ok (zproxy_raw {gb} {rb} {tp}) (zsortable_proxy {gb} {rb} {tp}) {core.cnats(proxy)}",
+                       {"kind": "sortable_proxy", "poly": desc, "graded": g, "reverse": r, "impl": proxy})
             if sorted(proxy) != list(range(size)):
                 note("proxy", f"sortable_proxy({desc}) = {proxy} is not a permutation of 0..{size-1}", {"poly": lay})
                 continue
